@@ -509,6 +509,15 @@ CLAIMED["C05"]["text"] += (" Round 8: 'a whole number of frames' holds under fai
 CLAIMED["C14"]["text"] += (" Round 8: psf->file.seek_failed on the three routes (lean/SfModel/RoutesLatch.lean over Sf.Routes; `sfmodel routes` runs the shim cases on it): SfProps/C14Latch.lean -- fwriteL_latched "
                             "(with the flag set psf_fwrite transfers nothing and touches neither file, store nor shim: the same answer on every route), fseekL_obs / fseekL_vio_latch / fseekL_fd_latch / fseekL_pipe_keeps, "
                             "runL_eq_run_of_clear (a run in which no seek fails is a run of Sf.Routes: routes_equivalent and the other C14 theorems hold for the repaired code on such runs).")
+# ---- round 8 (worker wbridge2): the remaining instances of the write-side bridge; the exact sample-period rate clause (appended) ----
+_R8_WBRIDGE2 = (" Round 8 (write-side bridge, remaining models): <x>_session_accepted for PAF (PCM_S8 / 16), IRCAM, NIST, MAT5, VOC (Laws directly: terminator byte) and SVX (given the reader fact SvxReopens) "
+                "in SfProps/C04Bridge2.lean, IMA ADPCM (WAV / W64 / AIFF layouts) + MS ADPCM (adpcm_block_agrees: the predicate's block table = geoOf for every rate) and OKI/VOX in SfProps/C07Bridge2.lean; "
+                "BlockFacts.c01 = lossy pair OR roundtrip fact (the C01 clause of judge for lossless block codecs). The rate clause of the predicate for the sample-period class (HTK 100 ns, SDS 1 ns in 21 bits) is EXACT: "
+                "AbsWrite.periodQuant = u / (u / sr) where the period fits the field, any positive rate elsewhere (vlib/geometry.py rate_ok likewise); htk_rate_exact_accepted for EVERY rate, htk_rate_exact_only, "
+                "rateOk_period_iff (SfProofs/AbsWriteRate.lean); the first-order tolerance of before is htk_rate_tolerance_old_rule; HTK / SDS campaign rates include 3.2 - 10 MHz, 476 / 477 Hz, 1 GHz + 1.")
+for _p in ("C01", "C04", "C07", "C11"):
+    CLAIMED[_p]["text"] += _R8_WBRIDGE2
+
 
 def main():
     checks = []
